@@ -55,6 +55,15 @@ func TestNode(t *testing.T) {
 		writeResult(res)
 		os.Exit(0)
 	}
+	// A goroutine the library starts from a package's init() is outside the simulation. Give it a
+	// moment to reach the place where it waits, so that it does not run into a hook right when the
+	// simulator attaches (the runtime would abort the process); it is reported as left running at the end.
+	for _, d := range dumpAll() {
+		if hasModuleFrame(d.body) {
+			time.Sleep(80 * time.Millisecond)
+			break
+		}
+	}
 	if pf := os.Getenv("SIMNODE_CPUPROFILE"); pf != "" {
 		if f, err := os.Create(pf); err == nil {
 			pprof.StartCPUProfile(f)
